@@ -1,6 +1,6 @@
 (* Props/C11.v -- property C11: requests built inside a dialog follow RFC 3261 sec. 12.2.1.1 *)
 From Coq Require Import List NArith.
-From EZK Require Import Lib.Bytes Model.C11 Proofs.C11.
+From EZK Require Import Model.Forms9 Proofs.Forms9 Gen.Tables Lib.Bytes Model.C11 Proofs.C11.
 Import ListNotations.
 Open Scope N_scope.
 
@@ -72,3 +72,14 @@ Theorem C11_forks_distinct : forall b rp1 rp2 d1 d2,
   from_response b rp1 = Some d1 -> from_response b rp2 = Some d2 -> p_to_tag rp1 <> p_to_tag rp2 ->
   (d_call_id d1, d_peer_tag d1, d_local_tag d1) <> (d_call_id d2, d_peer_tag d2, d_local_tag d2).
 Proof. exact forks_distinct. Qed.
+
+(* "the ACK for a 2xx reuses that INVITE's number" in every refresh round: the ACK kept for retransmitted 2xx belongs to one call of the
+   refresh; kept in the session it would acknowledge the second round with the first round's number *)
+Theorem C11_refresh_ack_guard : Tables.refresh_ack_per_round = true.
+Proof. reflexivity. Qed.
+
+Theorem C11_refresh_ack_numbers : Tables.refresh_ack_per_round = true -> forall rounds, refresh_acks rounds = rounds.
+Proof. exact refresh_acks_here. Qed.
+
+Theorem C11_refresh_ack_cached_refuted : forall a b r, a <> b -> nth 1 (refresh_acks_form false (a :: b :: r)) 0%N <> b.
+Proof. exact refresh_ack_cached. Qed.
